@@ -23,7 +23,7 @@ CHECKS = {
             "Every circuit AST over skeletons <= 3 (4) leaves with one focus leaf ranging over ~50 element variants (labels, fixed flags, values, limits incl. beyond the class defaults, container sub-circuits) is built through the public API, serialised with 1/3/12/17 decimals, parsed and compared with the AST; fixed point, copy/deepcopy and impedance clauses; every spelling with <= 2 (3) of 12 printer switches off the canonical position must parse to the denoted circuit. Deviation-bounded and exhaustive within the alphabet.",
             "States are reached by setter calls in an order chosen by the harness; class-default sub-circuits are read from the library.", "DESIGN.md section 4, C03"),
     "C04": ("exploration", E1 + " (all atom sequences up to N, all single/double mutations of valid codes)",
-            "Every string over a 28-atom lexical alphabet up to 4 (quick) / 5 (thorough) atoms, plus every single mutation of ~380 grammar-derived valid codes, is parsed by the real parse_cdc; outcome must be a Circuit, a parsing/tokenizing error or an explained ValueError; accepted strings must simulate (or raise an impedance error) and their serialisation must re-parse. Exhaustive within the stated alphabet and bound, which is the right level for a totality claim over strings.",
+            "Every string over a 31-atom lexical alphabet up to 4 (quick) / 5 (thorough) atoms, plus every single mutation of ~380 grammar-derived valid codes, is parsed by the real parse_cdc; outcome must be a Circuit, a parsing/tokenizing error or an explained ValueError; accepted strings must simulate (or raise an impedance error) and their serialisation must re-parse. Exhaustive within the stated alphabet and bound, which is the right level for a totality claim over strings.",
             "Strings outside the atom alphabet are only reached through mutations; a parse > 2 s counts as a hang.", "DESIGN.md section 4, C04"),
 }
 
